@@ -162,14 +162,49 @@ enum Expect {
 }
 
 fn make_jwk_did() -> (String, String) {
-  // A public OKP/Ed25519 or EC/P-256 JWK with coordinates drawn from the tape.
+  // A public OKP/Ed25519, EC/P-256 or RSA JWK with coordinates and optional members drawn from the tape.
   let x = identity_jose::jwu::encode_b64(ctx::bytes(32));
-  let jwk_json = if ctx::choose(2) == 0 {
-    format!("{{\"kty\":\"OKP\",\"crv\":\"Ed25519\",\"x\":\"{x}\"}}")
-  } else {
-    let y = identity_jose::jwu::encode_b64(ctx::bytes(32));
-    format!("{{\"kty\":\"EC\",\"crv\":\"P-256\",\"x\":\"{x}\",\"y\":\"{y}\"}}")
+  let mut jwk: serde_json::Value = match ctx::choose(3) {
+    0 => serde_json::json!({"kty":"OKP","crv":"Ed25519","x": x}),
+    1 => {
+      let y = identity_jose::jwu::encode_b64(ctx::bytes(32));
+      serde_json::json!({"kty":"EC","crv":"P-256","x": x, "y": y})
+    }
+    _ => serde_json::json!({"kty":"RSA","n": identity_jose::jwu::encode_b64(ctx::bytes(64)), "e": "AQAB"}),
   };
+  // optional members: the expanded document must carry exactly the key encoded in the DID, members included
+  if ctx::chance(1, 3) {
+    jwk["use"] = "sig".into();
+  }
+  if ctx::chance(1, 3) {
+    jwk["key_ops"] = match ctx::choose(3) {
+      0 => serde_json::json!(["verify"]),
+      1 => serde_json::json!(["verify", "encrypt"]),
+      _ => serde_json::json!(["wrapKey"]),
+    };
+    if let Some(o) = jwk.as_object_mut() {
+      o.remove("use");
+    }
+  }
+  if ctx::chance(1, 3) {
+    jwk["alg"] = ["EdDSA", "ES256", "RS256"][ctx::choose(3)].into();
+  }
+  if ctx::chance(1, 3) {
+    jwk["kid"] = format!("key-{}", ctx::choose(100)).into();
+  }
+  if ctx::chance(1, 4) {
+    jwk["x5u"] = "https://certs.example/chain.pem".into();
+  }
+  if ctx::chance(1, 4) {
+    jwk["x5t"] = identity_jose::jwu::encode_b64(ctx::bytes(20)).into();
+  }
+  if ctx::chance(1, 4) {
+    jwk["x5t#S256"] = identity_jose::jwu::encode_b64(ctx::bytes(32)).into();
+  }
+  if ctx::chance(1, 4) {
+    jwk["x5c"] = serde_json::json!(["MIIBszCCAVmgAwIBAgIUSimCert"]);
+  }
+  let jwk_json = jwk.to_string();
   let did = format!("did:jwk:{}", identity_jose::jwu::encode_b64(jwk_json.as_bytes()));
   (did, jwk_json)
 }
